@@ -418,7 +418,9 @@ func Main() {
 	} else {
 		res = p.Run(c)
 	}
-	if p.Race != nil {
+	if p.Race != nil && len(res.Violations) == 0 {
+		// (with a violation in hand the verdict is settled; a change that makes the
+		// bodies deadlock would only keep the free-running pass waiting)
 		racePass(c, p, res)
 	}
 	os.Exit(finish(c, p, res, *emit))
